@@ -560,6 +560,10 @@ def drv_misuse(doc, args, inst):
         't_on_tensor': lambda: r([2, 3]).t(),
         'sum_out_of_range': lambda: r([2, 3, 4]).sum(7),
         'sum_negative': lambda: r([2, 3, 4]).sum([-5]),
+        'sum_list_out_of_range': lambda: r([2, 3, 4]).sum([0, 3]),
+        'sum_list_high_first': lambda: r([2, 3, 4]).sum([5, 1]),
+        'sum_ttm_out_of_range': lambda: r([(2, 2), (3, 3)]).sum([1, 2]),
+        'dot_axis_range': lambda: tt.dot(r([2, 3, 4]), r([2, 3]), [0, 1, 6]),
         'sum_bad_type': lambda: r([2, 3, 4]).sum('a'),
         'mprod_on_ttm': lambda: r([(2, 3), (2, 2)]).mprod(tn.randn(4, 3), 0),
         'mprod_size': lambda: r([2, 3]).mprod(tn.randn(4, 5), 1),
@@ -1064,6 +1068,15 @@ def drv_grad_op(doc, args, inst):
         elif op == 'tensor_scalar_add':
             F = (x + tt.dot(x, y)).sum()
             Fd = (fx + (fx * fy).sum()).sum()
+        elif op == 'tensor_scalar_div':
+            F = (x / tt.dot(x, y)).sum()
+            Fd = (fx / (fx * fy).sum()).sum()
+        elif op == 'tensor_scalar_sub':
+            F = (x - tt.dot(x, y)).sum()
+            Fd = (fx - (fx * fy).sum()).sum()
+        elif op == 'tensor_scalar_rsub':
+            F = (tt.dot(x, y) - x).sum()
+            Fd = ((fx * fy).sum() - fx).sum()
         elif op == 'scalar_div':
             F = ((x / 2.5) * x).sum()
             Fd = ((fx / 2.5) * fx).sum()
